@@ -12,7 +12,12 @@ THEOREMS = ["C11_live_rows_immutable_no_crash", "C11_invariant_reachable", "C11_
             "C11_guards_flush_example"]
 RULE = ("engine histories on one shard (STORE/FLUSH/compaction rounds/restarts, abort() at the flush and compaction "
         "step points); at every quiescent observation the harness records the sha256 of every file of every segment "
-        "directory; non-trivial = at least two observations that share a segment id; distinct by (configuration, ops)")
+        "directory; non-trivial = at least two observations that share a segment id; distinct by (configuration, ops); "
+        "compaction rounds are run with a snapshot of every directory and of segments.idx at each batch's output-written and "
+        "live-list-updated step; scenarios: flush racing a compaction hand-over, a stalled file write (FIFO), read faults and "
+        "index-replacement faults during a round; oracle clauses: (1) a segment seen twice has identical bytes, (2) live "
+        "directories are complete, (3) a published directory stays in the index, (4) nothing published changes inside a "
+        "round, (5) what the index names exists on disk")
 ASSUMPTIONS = c05.ASSUMPTIONS
 TRUSTED = c05.TRUSTED
 CLAIMED = True
